@@ -94,7 +94,7 @@ macro_rules! q {
 
 pub const TYPES: &[&str] = &[
     "Priority", "MultiArch", "Urgency", "Sha1Checksum", "Sha256Checksum", "Sha512Checksum", "Md5Checksum", "PackageListEntry", "changes::File", "VersionConstraint", "BuildProfile",
-    "ParsedVcs", "Vcs", "Forwarded", "OriginCategory", "Origin", "AppliedUpstream", "PatchHeader.Origin", "License", "RepositoryType", "YesNoForce", "Signature",
+    "ParsedVcs", "Vcs", "Forwarded", "OriginCategory", "Origin", "AppliedUpstream", "PatchHeader.Origin", "License", "RepositoryType", "YesNoForce", "Signature", "Repository.Types",
 ];
 
 fn tok(rng: &mut Rng) -> String {
@@ -423,7 +423,28 @@ impl Scenario for C18 {
                 let origin = if (sel / 5) % 2 == 0 { O::Commit(a[2].clone()) } else { O::Other(format!("https://{}", a[2])) };
                 let pre = format!("{mode}+category={}", cat.map(|x| x.to_string()).unwrap_or("none".into()));
                 let val = PH { origin: Some((cat, origin)), forwarded: None, author: None, reviewed_by: None, bug_debian: None, last_update: None, applied_upstream: None, bug: None, description: None };
-                cycle(&c.ty, val, e, p!(PH), q!(PH), &pre)
+                match mode {
+                    // the field text as a maintainer writes it, including the bare category ("Origin: vendor")
+                    "canonical" => {
+                        let bare = (sel / 10) % 3 == 0;
+                        let text = match (cat, bare) {
+                            (Some(cat), true) => format!("Origin: {cat}\n"),
+                            _ => val.to_string(),
+                        };
+                        let pre = format!("{pre}{}", if bare && cat.is_some() { "+bare" } else { "" });
+                        canonical::<PH>(&c.ty, &text, e, p!(PH), q!(PH), &pre)
+                    }
+                    _ => cycle(&c.ty, val, e, p!(PH), q!(PH), &pre),
+                }
+            }
+            "Repository.Types" => {
+                // the set of repository types of a source entry, in its one-line text form
+                use apt_sources::Repositories as R;
+                let types = ["deb", "deb-src", "deb deb-src"][sel % 3];
+                let suite = ["stable", "sid", "bookworm-updates"][(sel / 3) % 3];
+                let text = format!("Types: {types}\nURIs: https://deb.debian.org/debian\nSuites: {suite}\nComponents: main\nArchitectures: amd64\n");
+                let pre = format!("{mode}+{}", types.replace(' ', "+"));
+                canonical::<R>(&c.ty, &text, e, p!(R), q!(R), &pre)
             }
             "License" => {
                 use debian_copyright::License as L;
